@@ -267,6 +267,25 @@ def slot_eviction_tp(r, mode, slots, age):
     return case(cfg(mode, 1, own, slots=slots), timeline(ev))
 
 
+def slot_eviction_live_tp(r, mode, slots, bam):
+    """a slow ISO-TP reception (one data packet every 50 ms, each refreshes its slot) while every other slot holds an unfinished fast packet;
+    a further first frame then has to take the stale fast-packet slot, not the live transport session, which completes (seed C13-17)"""
+    own = 22
+    n = 70
+    payload = bytes(r.randrange(256) for _ in range(n))
+    dst = 255 if bam else own
+    ev = [(0, ['P']), (10, [G.tp_rts(129540, 30, dst, n, bam=bam), 'P'])]
+    for k in range(1, 11):
+        ev.append((10 + 50 * k, [G.tp_dt(30, dst, k, payload[(k - 1) * 7:k * 7]), 'P']))
+    fp = {s: G.sender_stream(r, 129029, s, 255, bytes(r.randrange(256) for _ in range(20)), prio=3, sid=r.randrange(8)) for s in (40, 41, 42, 43, 44)}
+    for j in range(slots - 1):
+        ev.append((330 + j, [fp[40 + j][0], 'P']))               # the other slots: first frames only
+    ev.append((440, [fp[44][0], 'P']))                          # all busy: the oldest slot older than 100 ms goes - a fast packet of t=330..
+    ev.append((445, fp[44][1:] + ['P']))
+    ev.append((600, ['P']))
+    return case(cfg(mode, 1, own, slots=slots), timeline(sorted(ev, key=lambda e: e[0])))
+
+
 def mixed(r, mode, ndev, src):
     """several timers running at once: claim restart, TP send, pending information, heartbeat"""
     own = src
@@ -316,6 +335,8 @@ def directed(seed, tier):
         for age in ([99, 100, 101] if thorough else [r.choice([99, 100, 101])]):
             add('slots-tp-%d' % age, slot_eviction_tp(r, r.choice([1, 2]), r.choice([1, 2]), age))
         add('mixed', mixed(r, r.choice([1, 2]), r.choice([1, 2, 3]), r.choice([0, 22, 100])))
+        add('slots-live-tp-bam', slot_eviction_live_tp(r, r.choice([2, 0, 4]), r.choice([2, 3]), True))
+        add('slots-live-tp-cts', slot_eviction_live_tp(r, r.choice([1, 2]), 2, False))
     add('mixed-9dev', mixed(r, 1, 9, 30))
     # heartbeat across a long silent gap (wrap of the 32-bit clock inside the gap for origins 2^32-k, 2^33-k)
     for cold, gap, v in ([(False, 3000000000, 'set'), (True, 3000000000, 'default'), (False, 4294967295, 'set'), (False, 2200000000, 'claiming'), (False, 2200000000, 'two-gaps')]
